@@ -180,7 +180,8 @@ def judge(ctx, case):
     feat = "%s:%s" % (kind, "+".join(sorted(set(case["aggs"]))))
     ctx.evaluation({"d": dense, "k": kind, "a": case["aggs"], "i": case["inputs"]}, missing_rows)
 
-    r_all = [freeze(r) for r in cube.calculate(funcs)]
+    live_all = cube.calculate(funcs)          # the result objects themselves are kept ...
+    r_all = [freeze(r) for r in live_all]     # ... next to copies taken at once
     ctx.count("calls:calculate")
     if not w.check("calculate(list)"):
         return
@@ -239,6 +240,14 @@ def judge(ctx, case):
         ctx.count("reuse_other_cube:checked")
         if not all(same(a, b) for a, b in zip(back, r_all)):
             ctx.violation("reuse-other-cube:%s" % feat, "after using the same aggregate objects on another cube the results on the first cube change", case)
+            return
+    # a result belongs to the caller: nothing computed later may change an array that was already returned
+    ctx.count("earlier_results_rechecked")
+    for i, (lv, fz) in enumerate(zip(live_all, r_all)):
+        if not same(lv, fz):
+            ctx.violation("returned-result-changed-later:%s:%s" % (kind, case["aggs"][i]),
+                          "the arrays returned by the first calculate (function %d, %s) were changed by later calls: a result "
+                          "is a view of state the library goes on using" % (i, case["aggs"][i]), case)
             return
     if dense:
         # ... and on a cube without dimensions in between (same rows, one cell)
